@@ -8,6 +8,7 @@
 -/
 import NV.Model.CFG
 import NV.Gen.ProxyCFG
+import NV.Lemmas.Sem
 namespace NV.C04
 open NV.CFG NV.Gen
 
@@ -62,5 +63,302 @@ theorem tcp_handler_point_ok (i : Nat) (s : St) (b : Block) (pre post : List Ev)
 theorem handler_holds_one :
     (ProxyCFG.serveUDP_handler0_cert.all fun c => c.1 == 1) = true ∧
     (ProxyCFG.serveTCPConn_handler0_cert.all fun c => c.1 == 1) = true := by decide
+
+
+/-! ### the semaphore system: all interleavings (model NV.Model.Sem) -/
+
+open NV.Sem
+
+theorem apply_fst (e : Ev) (s : St) :
+    (e.apply s).1 = s.1 + (if e = .acq then 1 else 0) - (if e = .rel ∨ e = .spawn then 1 else 0) := by
+  obtain ⟨h, d⟩ := s
+  cases e <;> simp [Ev.apply]
+
+theorem threadOK_stOk (tab : Table) (htab : TableOK tab) (t : Thread) (h : ThreadOK tab t) :
+    ∃ pi, tab[t.pid]? = some pi ∧ stOk pi.strict t.st := by
+  obtain ⟨pi, b, hpi, hr, hb, hsplit, hst⟩ := h
+  have hmem : pi ∈ tab := List.mem_of_getElem? hpi
+  obtain ⟨hc, h0, hd, _⟩ := htab pi hmem
+  have hinit : stOk pi.strict pi.init := ⟨h0, fun _ => .inl hd⟩
+  refine ⟨pi, hpi, ?_⟩
+  rw [hst]
+  exact point_stOk pi.strict pi.prog pi.cert pi.init hc hinit t.blk t.s0 b hr hb t.done t.rest hsplit
+
+/-- **C04 (all interleavings)**: the invariant `free + Σ held = K ∧ free ≥ 0 ∧ every thread is on a
+path of its certified CFG` is preserved by every step of every thread — event, spawn of a handler,
+move to a successor block, return, panic after the deferred release is installed. -/
+theorem inv_step (tab : Table) (K : Int) (htab : TableOK tab) (s s' : Sys)
+    (hinv : Inv tab K s) (hstep : Step tab s s') : Inv tab K s' := by
+  obtain ⟨hsum, hfree, hthreads⟩ := hinv
+  cases hstep with
+  | ev i t e r hget hrest hns hacq =>
+    have htok := hthreads t (List.mem_of_getElem? hget)
+    refine ⟨?_, ?_, ?_⟩
+    · simp only
+      rw [heldSum_set s.threads i t _ hget]
+      simp only
+      rw [apply_fst]
+      cases e <;> simp_all <;> omega
+    · simp only
+      cases e <;> simp_all <;> omega
+    · intro x hx
+      rcases mem_set_cases' hx with hx | rfl
+      · exact hthreads x hx
+      · obtain ⟨pi, b, hpi, hr, hb, hsplit, hst⟩ := htok
+        refine ⟨pi, b, hpi, hr, hb, ?_, ?_⟩
+        · simp [hsplit, hrest]
+        · simp only; rw [runEvs_snoc, hst]
+  | spawn i t r pi c hget hrest hpi hstart =>
+    have htok := hthreads t (List.mem_of_getElem? hget)
+    obtain ⟨pi', b, hpi', hr, hb, hsplit, hst⟩ := htok
+    have hpieq : pi' = pi := by rw [hpi] at hpi'; exact (Option.some.inj hpi').symm
+    subst hpieq
+    -- the child program starts holding exactly the unit handed over
+    unfold startThread at hstart
+    split at hstart
+    · simp at hstart
+    · rename_i pc hpc
+      split at hstart
+      · simp at hstart
+      · rename_i b0 hb0
+        simp only [Option.some.injEq] at hstart
+        have hmem : pi' ∈ tab := List.mem_of_getElem? hpi
+        obtain ⟨_, _, _, hchild⟩ := htab pi' hmem
+        have hcinit : pc.init = (1, 0) := by
+          rcases hchild pc hpc with h | h
+          · exact h
+          · exfalso; apply h
+            refine ⟨b, List.mem_of_getElem? hb, ?_⟩
+            rw [hsplit, hrest]; simp
+        refine ⟨?_, hfree, ?_⟩
+        · simp only
+          rw [heldSum_append, heldSum_set s.threads i t _ hget]
+          subst hstart
+          simp only [heldSum, apply_fst, hcinit]
+          simp
+          omega
+        · intro x hx
+          simp only [List.mem_append, List.mem_singleton] at hx
+          rcases hx with hx | rfl
+          · rcases mem_set_cases' hx with hx | rfl
+            · exact hthreads x hx
+            · refine ⟨pi', b, hpi, hr, hb, ?_, ?_⟩
+              · simp [hsplit, hrest]
+              · simp only; rw [runEvs_snoc, hst]
+          · subst hstart
+            exact ⟨pc, b0, hpc, Reach.entry, hb0, by simp, by simp [runEvs]⟩
+  | next i t pi b b' j hget hrest hpi hb hj hb' =>
+    have htok := hthreads t (List.mem_of_getElem? hget)
+    obtain ⟨pi', b2, hpi', hr, hb2, hsplit, hst⟩ := htok
+    have hpieq : pi' = pi := by rw [hpi] at hpi'; exact (Option.some.inj hpi').symm
+    subst hpieq
+    have hbeq : b2 = b := by rw [hb] at hb2; exact (Option.some.inj hb2).symm
+    subst hbeq
+    refine ⟨?_, hfree, ?_⟩
+    · simp only
+      rw [heldSum_set s.threads i t _ hget]
+      simp only; omega
+    · intro x hx
+      rcases mem_set_cases' hx with hx | rfl
+      · exact hthreads x hx
+      · refine ⟨pi', b', hpi, ?_, hb', by simp, by simp [runEvs]⟩
+        have hdone : t.done = b2.evs := by rw [hsplit, hrest]; simp
+        have := Reach.step hr hb hj
+        simp only
+        rw [hst, hdone]; exact this
+  | exit i t pi b hget hrest hpi hb hexit =>
+    have htok := hthreads t (List.mem_of_getElem? hget)
+    obtain ⟨pi', b2, hpi', hr, hb2, hsplit, hst⟩ := htok
+    have hpieq : pi' = pi := by rw [hpi] at hpi'; exact (Option.some.inj hpi').symm
+    subst hpieq
+    have hbeq : b2 = b := by rw [hb] at hb2; exact (Option.some.inj hb2).symm
+    subst hbeq
+    have hmem : pi' ∈ tab := List.mem_of_getElem? hpi
+    obtain ⟨hc, h0, hd, _⟩ := htab pi' hmem
+    have hdone : t.done = b2.evs := by rw [hsplit, hrest]; simp
+    have hbal := exit_balanced pi'.strict pi'.prog pi'.cert pi'.init hc t.blk t.s0 b2 hr hb hexit
+    rw [← hdone, ← hst] at hbal
+    obtain ⟨_, _, hok⟩ := threadOK_stOk tab htab t ⟨pi', b2, hpi, hr, hb, hsplit, hst⟩
+    refine ⟨?_, ?_, ?_⟩
+    · simp only
+      rw [heldSum_eraseIdx s.threads i t hget]; omega
+    · simp only; have := hok.1; omega
+    · intro x hx; exact hthreads x (mem_eraseIdx_mem hx)
+  | panic i t pi hget hpi hstrict hdef =>
+    have htok := hthreads t (List.mem_of_getElem? hget)
+    obtain ⟨pi2, hpi2, hok⟩ := threadOK_stOk tab htab t htok
+    have hpieq : pi2 = pi := by rw [hpi] at hpi2; exact (Option.some.inj hpi2).symm
+    subst hpieq
+    have hbal : t.st.1 = t.st.2 := by
+      rcases hok.2 hstrict with h | h
+      · omega
+      · exact h
+    refine ⟨?_, ?_, ?_⟩
+    · simp only
+      rw [heldSum_eraseIdx s.threads i t hget]; omega
+    · simp only; omega
+    · intro x hx; exact hthreads x (mem_eraseIdx_mem hx)
+
+
+theorem tableOkB_sound (tab : Table) (h : tableOkB tab = true) : TableOK tab := by
+  intro pi hpi
+  unfold tableOkB at h
+  rw [List.all_eq_true] at h
+  have := h pi hpi
+  simp only [Bool.and_eq_true, Bool.or_eq_true, decide_eq_true_eq, Bool.not_eq_true'] at this
+  obtain ⟨⟨⟨h1, h2⟩, h3⟩, h4⟩ := this
+  refine ⟨h1, h2, h3, ?_⟩
+  intro pc hpc
+  rcases h4 with h4 | h4
+  · left
+    rw [hpc] at h4
+    simpa using h4
+  · right
+    rintro ⟨b, hb, hs⟩
+    have : (pi.prog.any fun b => b.evs.contains .spawn) = true := by
+      rw [List.any_eq_true]
+      exact ⟨b, hb, by simpa using hs⟩
+    rw [this] at h4
+    simp at h4
+
+/-- the regenerated programs as a table: 0 serveUDP (spawns 1), 1 its handler, 2 serveTCPConn
+(spawns 3), 3 its handler, 4 serveTCP (accept loop; starts connection threads without a unit) -/
+def proxyTable : Table := [
+  ⟨ProxyCFG.serveUDP, ProxyCFG.serveUDP_cert, ProxyCFG.serveUDP_init, ProxyCFG.serveUDP_strict, 1⟩,
+  ⟨ProxyCFG.serveUDP_handler0, ProxyCFG.serveUDP_handler0_cert, (1, 0), ProxyCFG.serveUDP_handler0_strict, 1⟩,
+  ⟨ProxyCFG.serveTCPConn, ProxyCFG.serveTCPConn_cert, ProxyCFG.serveTCPConn_init, ProxyCFG.serveTCPConn_strict, 3⟩,
+  ⟨ProxyCFG.serveTCPConn_handler0, ProxyCFG.serveTCPConn_handler0_cert, (1, 0), ProxyCFG.serveTCPConn_handler0_strict, 3⟩,
+  ⟨ProxyCFG.serveTCP, ProxyCFG.serveTCP_cert, ProxyCFG.serveTCP_init, ProxyCFG.serveTCP_strict, 4⟩]
+
+/-- the regenerated table is certified (each program's certificate, clean entry states, handlers
+entered with exactly the unit handed over) -/
+theorem proxyTable_ok : TableOK proxyTable := tableOkB_sound _ (by decide)
+
+/-- states of the proxy with `K` units: any number of listener / connection / accept threads at
+their entry holding nothing, then any interleaving of steps -/
+inductive Reachable (K : Int) : Sys → Prop where
+  | init (ts : List Thread) :
+      (∀ t ∈ ts, ∃ pid, (pid = 0 ∨ pid = 2 ∨ pid = 4) ∧ startThread proxyTable pid = some t) →
+      Reachable K ⟨K, ts⟩
+  | step {s s' : Sys} : Reachable K s → Step proxyTable s s' → Reachable K s'
+
+theorem start_listener (pid : Nat) (t : Thread) (hp : pid = 0 ∨ pid = 2 ∨ pid = 4)
+    (h : startThread proxyTable pid = some t) : t.st = (0, 0) ∧ ThreadOK proxyTable t := by
+  rcases hp with rfl | rfl | rfl <;>
+  · simp [startThread, proxyTable, ProxyCFG.serveUDP, ProxyCFG.serveTCPConn, ProxyCFG.serveTCP] at h
+    subst h
+    refine ⟨by decide, ?_⟩
+    exact ⟨_, _, rfl, Reach.entry, rfl, rfl, rfl⟩
+
+theorem reachable_inv (K : Int) (hK : 0 ≤ K) (s : Sys) (h : Reachable K s) : Inv proxyTable K s := by
+  induction h with
+  | init ts hts =>
+    refine ⟨?_, hK, ?_⟩
+    · have : heldSum ts = 0 := by
+        induction ts with
+        | nil => rfl
+        | cons t ts ih =>
+          obtain ⟨pid, hp, hst⟩ := hts t (by simp)
+          have := (start_listener pid t hp hst).1
+          simp [heldSum, this, ih (fun x hx => hts x (by simp [hx]))]
+      simp [this]
+    · intro t ht
+      obtain ⟨pid, hp, hst⟩ := hts t ht
+      exact (start_listener pid t hp hst).2
+  | step _ hs ih => exact inv_step proxyTable K proxyTable_ok _ _ ih hs
+
+/-- **C04 (bounded)**: in every reachable state of every interleaving the units in use never exceed
+the capacity, and the free count never goes negative. -/
+theorem inflight_le_K (K : Int) (hK : 0 ≤ K) (s : Sys) (h : Reachable K s) :
+    heldSum s.threads ≤ K ∧ 0 ≤ s.free ∧ s.free + heldSum s.threads = K := by
+  obtain ⟨h1, h2, _⟩ := reachable_inv K hK s h
+  exact ⟨by omega, h2, h1⟩
+
+/-- **C04 (given back)**: whenever no thread holds a unit (all handlers have ended, listeners not
+yet past their acquire) the whole capacity is free again — after any storm, in any order. -/
+theorem capacity_restored (K : Int) (hK : 0 ≤ K) (s : Sys) (h : Reachable K s)
+    (hq : ∀ t ∈ s.threads, t.st.1 = 0) : s.free = K := by
+  obtain ⟨h1, _, _⟩ := reachable_inv K hK s h
+  have : heldSum s.threads = 0 := by
+    generalize s.threads = ts at hq
+    induction ts with
+    | nil => rfl
+    | cons t ts ih => simp [heldSum, hq t (by simp), ih (fun x hx => hq x (by simp [hx]))]
+  omega
+
+def isHandler (t : Thread) : Bool := t.pid == 1 || t.pid == 3
+
+theorem runEvs_held_const (evs : List Ev) (s : St)
+    (h : ∀ e ∈ evs, e = .deferRel ∨ e = .need ∨ e = .nop) : (runEvs evs s).1 = s.1 := by
+  induction evs generalizing s with
+  | nil => rfl
+  | cons e es ih =>
+    simp only [runEvs, List.foldl_cons]
+    have he := h e (by simp)
+    have h1 : (e.apply s).1 = s.1 := by
+      obtain ⟨a, b⟩ := s
+      rcases he with rfl | rfl | rfl <;> rfl
+    have := ih (e.apply s) (fun x hx => h x (by simp [hx]))
+    simp only [runEvs] at this
+    omega
+
+theorem reach_held_const (p : Prog) (init : St)
+    (hp : ∀ b ∈ p, ∀ e ∈ b.evs, e = .deferRel ∨ e = .need ∨ e = .nop) :
+    ∀ i s, Reach p init i s → s.1 = init.1 := by
+  intro i s hr
+  induction hr with
+  | entry => rfl
+  | @step i j s b _ hb _ ih =>
+    rw [runEvs_held_const b.evs s (hp b (List.mem_of_getElem? hb))]; exact ih
+
+theorem handler_progs_quiet :
+    (∀ b ∈ ProxyCFG.serveUDP_handler0, ∀ e ∈ b.evs, e = Ev.deferRel ∨ e = .need ∨ e = .nop) ∧
+    (∀ b ∈ ProxyCFG.serveTCPConn_handler0, ∀ e ∈ b.evs, e = Ev.deferRel ∨ e = .need ∨ e = .nop) := by
+  decide
+
+/-- a live handler thread holds exactly one unit at every point of its execution -/
+theorem handler_holds_unit (t : Thread) (hok : ThreadOK proxyTable t) (hh : isHandler t = true) :
+    t.st.1 = 1 := by
+  obtain ⟨pi, b, hpi, hr, hb, hsplit, hst⟩ := hok
+  obtain ⟨q1, q3⟩ := handler_progs_quiet
+  unfold isHandler at hh
+  simp only [Bool.or_eq_true, beq_iff_eq] at hh
+  rcases hh with hh | hh <;>
+  · rw [hh] at hpi
+    simp [proxyTable] at hpi
+    subst hpi
+    have hmem := List.mem_of_getElem? hb
+    first
+      | (have h1 := reach_held_const _ _ q1 _ _ hr
+         have h2 := runEvs_held_const t.done t.s0 (fun e he => q1 b hmem e (by rw [hsplit]; simp [he]))
+         rw [hst, h2, h1])
+      | (have h1 := reach_held_const _ _ q3 _ _ hr
+         have h2 := runEvs_held_const t.done t.s0 (fun e he => q3 b hmem e (by rw [hsplit]; simp [he]))
+         rw [hst, h2, h1])
+
+/-- **C04 (at most K queries in process)**: the number of live handler goroutines never exceeds
+the capacity, in any reachable state of any interleaving. -/
+theorem concurrent_handlers_le_K (K : Int) (hK : 0 ≤ K) (s : Sys) (h : Reachable K s) :
+    ((s.threads.filter isHandler).length : Int) ≤ K := by
+  obtain ⟨h1, h2, h3⟩ := reachable_inv K hK s h
+  have key : ∀ ts : List Thread, (∀ t ∈ ts, ThreadOK proxyTable t) →
+      ((ts.filter isHandler).length : Int) ≤ heldSum ts := by
+    intro ts
+    induction ts with
+    | nil => intro _; simp [heldSum]
+    | cons t ts ih =>
+      intro hall
+      have hrest := ih (fun x hx => hall x (by simp [hx]))
+      have htok := hall t (by simp)
+      obtain ⟨_, _, hst⟩ := threadOK_stOk proxyTable proxyTable_ok t htok
+      cases hh : isHandler t with
+      | true =>
+        have := handler_holds_unit t htok hh
+        simp [List.filter, hh, heldSum]; omega
+      | false =>
+        have := hst.1
+        simp [List.filter, hh, heldSum]; omega
+  have := key s.threads h3
+  omega
 
 end NV.C04
